@@ -23,6 +23,7 @@ META = dict(
 def jobs(tier, seed):
     out = []
     for t in TASK_ROWS: out.append(('task.%s' % t, 'c_task', dict(task=t)))
+    for t in ('BCCH_NORM', 'TCH_F_EVEN', 'SDCCH8_3'): out.append(('reset-enable.%s' % t, 'c_reset_enable', dict(task=t)))
     for cfg in range(0, 13):
         out.append(('lookup.cfg=%d' % cfg, 'c_lookup', dict(cfg=cfg)))
         out.append(('lookup-after-lookup.cfg=%d' % cfg, 'c_lookup_seq', dict(cfg=cfg)))
@@ -153,6 +154,34 @@ def uf(ex, vals, idx):
     if f.name() not in ex._tabs:
         ex._tabs.add(f.name()); ex.assumes.extend(core.TABLE_AX_BY_FN[f.name()])
     return f(idx)
+
+
+def c_reset_enable(hid, task, timeout_ms=60000):
+    """the way the firmware gets into the state the task.* jobs start from: mframe_reset() at an arbitrary frame X, mframe_enable(task),
+    then mframe_schedule() at an arbitrary frame F (a resync may move the frame counter either way): the task is active from that very
+    call on, so the start frames proven for an active task apply"""
+    j = cjob.CJob(hid, timeout_ms)
+    fw, tx = consts()
+    ex = Exec(fw_module(), max_iter=64)
+    X = j.var(ex, 'fn_at_reset', 0, HYPER - 1); F = j.var(ex, 'fn', 0, HYPER - 1)
+    l1s = 'g:@l1s'; ex.objs[l1s] = fw['sizeof(struct l1s_state)']
+    o_tasks = fw['offsetof(struct l1s_state, mframe_sched.tasks)']; o_tgt = fw['offsetof(struct l1s_state, mframe_sched.tasks_tgt)']
+    o_safe = fw['offsetof(struct l1s_state, mframe_sched.safe_fn)']; o_fn = fw['offsetof(struct l1s_state, current_time.fn)']
+    t = fw['MF_TASK_' + task]
+    # arbitrary leftovers from before the reset
+    cells = {o_tasks: (4, j.var(ex, 'old.tasks', 0, (1 << 32) - 1)), o_tgt: (4, j.var(ex, 'old.tasks_tgt', 0, (1 << 32) - 1)),
+             o_safe: (4, j.var(ex, 'old.safe_fn', 0, (1 << 32) - 1)), o_fn: (4, X)}
+    ex.stubs['@tdma_schedule_set'] = lambda e, st, a: C(4)
+    mem = ex.run('@mframe_reset', [], {l1s: cells}).mem
+    mem = ex.run('@mframe_enable', [C(t)], mem).mem
+    c2 = dict(mem[l1s]); c2[o_fn] = (4, F); mem = dict(mem); mem[l1s] = c2
+    out = ex.run('@mframe_schedule', [], mem)
+    j.witness(ex, [])
+    j.memory_obligations(ex, [])
+    post = out.mem[l1s]
+    j.must_hold(ex, 'task-active-after-reset+enable+schedule', [], ex._read_at(post, l1s, o_tasks, 4, False).e == (1 << t))
+    j.stats.extra['ir_steps'] = ex.steps
+    return j.stats
 
 
 def c_task(hid, task, timeout_ms=60000):
@@ -321,7 +350,7 @@ def c_layout(hid, li, timeout_ms=60000):
     j.must_hold(ex, 'layout%d:period<=table' % li, [], z3.BoolVal(0 < period <= nfr), period=period, table=nfr)
     mask = lay.field(li, 'lchan_mask', 8)
     idx = fn.e % period
-    single = set(tx['L1SCHED_' + c] for c in ('IDLE', 'FCCH', 'SCH', 'RACH', 'PTCCH'))
+    single = set(tx['L1SCHED_' + c] for c in ('IDLE', 'FCCH', 'SCH', 'RACH'))           # PTCCH is a four-burst block like the others
     nchan = tx['_L1SCHED_CHAN_MAX']
     for d in ('dl', 'ul'):
         ch = uf(ex, cols[d + '_chan'], idx); bid = uf(ex, cols[d + '_bid'], idx)
@@ -422,6 +451,16 @@ def replay(body):
     fw, tx = consts()
     if f == 'c_task':
         return (1, 'REPRODUCED by evaluating the natively compiled firmware scheduler and trxcon layout at fn=%s: %s' % (fn, ob)) if native_disagrees(body) else (0, 'native tables agree')
+    if f == 'c_reset_enable':
+        i = body['inputs']
+        drv = '#include <stdio.h>\n#include <stdlib.h>\n#include "%s"\nstruct l1s_state l1s;\nint tdma_schedule_set(uint8_t o, const struct tdma_sched_item *s, uint16_t p) { return 4; }\nint sercomm_putchar(int c) { return c; }\n' % FWSRC + \
+              'int main(int argc, char **argv) { l1s.mframe_sched.tasks = strtoul(argv[3], 0, 10); l1s.mframe_sched.tasks_tgt = strtoul(argv[4], 0, 10); l1s.mframe_sched.safe_fn = strtoul(argv[5], 0, 10); l1s.current_time.fn = strtoul(argv[1], 0, 10); mframe_reset(); mframe_enable(atoi(argv[6])); l1s.current_time.fn = strtoul(argv[2], 0, 10); mframe_schedule(); printf("TASKS %u\\n", l1s.mframe_sched.tasks); return 0; }\n'
+        t = fw['MF_TASK_' + body['shape']['task']]
+        rc, out = cjob.run_native(drv, None, cjob.FW_INCS, args=[i.get('fn_at_reset', 0), i.get('fn', 0), i.get('old.tasks', 0), i.get('old.tasks_tgt', 0), i.get('old.safe_fn', 0), t], extra_cflags=['-Wl,--unresolved-symbols=ignore-all'])
+        if rc is None: return 2, out
+        m = re.search(r'TASKS (\d+)', out)
+        if rc != 0 or not m: return 1, 'REPRODUCED: native run failed: ' + out[-500:]
+        return (0, 'native agrees') if int(m.group(1)) == (1 << t) else (1, 'REPRODUCED on native mframe_sched.c: reset at fn=%d, enable, schedule at fn=%d leaves tasks=%s (task bit %d not active)' % (i.get('fn_at_reset', 0), i.get('fn', 0), m.group(1), t))
     if f == 'c_subst':
         i = body['inputs']; li = body['shape']['li']
         ex = Exec(tx_module()); lay = Layouts(ex)
@@ -469,7 +508,7 @@ def replay(body):
         for d, ci, bi in (('dl', 0, 1), ('ul', 2, 3)):
             ch, bid = fr[k][ci], fr[k][bi]
             if ch != tx['L1SCHED_IDLE'] and not (L['mask'] >> ch) & 1: return 1, 'REPRODUCED on native table: frame %d %s channel %d not in mask %x' % (k, d, ch, L['mask'])
-            if ch in (tx['L1SCHED_IDLE'], tx['L1SCHED_FCCH'], tx['L1SCHED_SCH'], tx['L1SCHED_RACH'], tx['L1SCHED_PTCCH']): continue
+            if ch in (tx['L1SCHED_IDLE'], tx['L1SCHED_FCCH'], tx['L1SCHED_SCH'], tx['L1SCHED_RACH']): continue
             n = 2 if ch in (tx['L1SCHED_TCHH_0'], tx['L1SCHED_TCHH_1']) else 4
             s_ = next(s for s in range(1, L['period'] + 1) if fr[(k + s) % L['period']][ci] == ch)
             if fr[(k + s_) % L['period']][bi] != (bid + 1) % n: return 1, 'REPRODUCED on native table: %s channel %d burst id %d at frame %d followed by %d' % (d, ch, bid, k, fr[(k + s_) % L['period']][bi])
